@@ -601,11 +601,16 @@ func CheckC12(run *evid.Run) {
 	c12PlaceFile(place)
 	total := pick(run.Tier, 800, 10000)
 	defer os.Remove(c12PoolPath())
-	runCases(run, "C12place", total, true, false, ChildOpts{
+	po := ChildOpts{
 		Env: []string{"VERIF_C12_POOL=" + c12PoolPath()},
 		OnDeath: func(last map[string]any, tail, kind string) (string, map[string]any) {
-			return "C12/process-died-loading", det("kind", kind, "edits", last["edits"], "position", last["position"], "loader", last["loader"])
-		}})
+			return "C12/process-died-loading", det("kind", kind, "edits", last["edits"], "position", last["position"], "loader", last["loader"], "phase", last["phase"])
+		}}
+	runCases(run, "C12place", total, true, run.Tier == "thorough", po)
+	if run.Tier != "thorough" {
+		// a slice of the placement cases again under the race detector (undecodable blocks take the fetcher's error paths)
+		runCases(run, "C12place", total/5, true, true, po)
+	}
 }
 
 var placePool []*hostile
@@ -791,8 +796,124 @@ func c12PlaceCase(run *evid.Run, i int, j *Journal) {
 			if !model.SameKeys(got.Set, want) {
 				run.Violate("C12/rest-not-loaded", d, wit(), "log with hostile block %s at %s (%s loader): loaded %d entries, the remaining history has %d", item.Edits, pos, loader, len(got.Set), len(want))
 			}
+			// the log loaded around the hostile blocks (its index may hold entries that no longer hang off its heads)
+			// must keep working: reads, an append, and merges with every kind of size bound, each on a copy
+			j.Log(map[string]any{"case": i, "edits": item.Edits, "position": pos, "loader": loader, "victim": victim, "phase": "use-after-load"})
+			nv, nl := len(got.Values), got.Len
+			sizes := []int{-1, 0, 1, nv, nv + 1, (nv + nl) / 2, nl - 1, nl, nl + 1}
+			if nv == nl {
+				sizes = []int{-1, []int{0, 1, nl - 1, nl, nl + 1}[rng.Intn(5)]}
+			}
+			for _, size := range sizes {
+				if size < -1 {
+					continue
+				}
+				lo := w2.LogOpts(w2.LogID)
+				lo.Entries = loaded.GetEntries()
+				lo.Heads = loaded.Heads().Slice()
+				cp, cerr := ipfslog.NewLog(cs.API(), x.W.Idents[0], lo)
+				if cerr != nil {
+					continue
+				}
+				other := w2.NewLog(0)
+				if size%2 == 0 {
+					_, _ = other.Append(x.W.Ctx, []byte("other"), nil)
+				}
+				if p := safely(func() {
+					_, _ = cp.Join(other, size)
+					_ = cp.Values()
+					it := make(chan iface.IPFSLogEntry, 1+cp.Len())
+					_ = cp.Iterator(&ipfslog.IteratorOptions{}, it)
+					_, _ = cp.Append(x.W.Ctx, []byte("after"), nil)
+					_ = cp.ToString(nil)
+				}); p != nil {
+					run.Violate("C12/panic-using-loaded-log", det("position", pos, "loader", loader, "size_bound", sizeClass(size, nv, nl)), wit(),
+						"a log loaded around hostile blocks (%d entries in its index, %d in its linearised view) panicked in Join(size=%d)/Values/Iterator/Append/ToString: %v", nl, nv, size, p)
+					break
+				}
+				run.Count("uses_of_logs_loaded_around_hostile_blocks", 1)
+			}
 			run.NonTrivial(fmt.Sprintf("place/%s/%s/%s", pos, loader, item.Edits))
+		}
+		if i%8 == 1 {
+			c12ManyBadHeads(run, i, r, rng, x, l, src, c12Pool, j)
 		}
 	}
 	run.Eval(1)
+}
+
+func sizeClass(size, nv, nl int) string {
+	switch {
+	case size < 0:
+		return "none"
+	case size < nv:
+		return "<values"
+	case size == nv:
+		return "=values"
+	case size < nl:
+		return "between values and index"
+	case size == nl:
+		return "=index"
+	}
+	return ">index"
+}
+
+// c12ManyBadHeads: a published head list in which many hostile blocks are interleaved with the real heads,
+// fetched with high concurrency, several times: the real history must load completely every time.
+func c12ManyBadHeads(run *evid.Run, i, r int, rng *rand.Rand, x *hx.Exec, l *ipfslog.IPFSLog, src *hx.Obs, pool []placeItem, j *Journal) {
+	cs := x.W.Store.Clone()
+	nbad := 40 + rng.Intn(200)
+	var heads []cid.Cid
+	real := cidsOf(src.Heads)
+	for k := 0; k < nbad; k++ {
+		it := pool[rng.Intn(len(pool))]
+		raw := mustHex(it.RawHex)
+		// distinct identifiers for identical hostile bytes: the store serves by identifier
+		c := foreignCid(fmt.Sprintf("badhead-%d-%d-%d", run.Seed, i, k))
+		cs.PutRaw(c, raw)
+		heads = append(heads, c)
+		if k%(1+nbad/(len(real)+1)) == 0 && len(real) > 0 {
+			heads = append(heads, real[0])
+			real = real[1:]
+		}
+	}
+	heads = append(heads, real...)
+	w2 := *x.W
+	w2.Store = cs
+	want := model.FetchReach(src.Set, src.Heads, nil, nil)
+	rounds := 6
+	for round := 0; round < rounds; round++ {
+		conc := []int{0, 8, 16, 32, 64}[rng.Intn(5)]
+		j.Log(map[string]any{"case": i, "phase": "many-bad-heads", "bad_heads": nbad, "round": round, "concurrency": conc})
+		var loaded *ipfslog.IPFSLog
+		var err error
+		returned, dump := callHang(cs, time.Second, func() {
+			loaded, err = w2.LoadJSON(&iface.JSONLog{ID: x.W.LogID, Heads: heads}, 0, &hx.LoadOpts{Concurrency: conc})
+		})
+		run.Count("loads_with_many_hostile_heads", 1)
+		d := det("scenario", "many-bad-heads", "concurrency", conc)
+		wit := func() map[string]any {
+			m := histSample(x.H)
+			m["scenario"] = fmt.Sprintf("replica r%d published with %d hostile blocks interleaved among its %d heads, JSON loader, concurrency %d, round %d", r, nbad, len(src.Heads), conc, round)
+			return m
+		}
+		if !returned {
+			if dump == "" {
+				run.Inconclusive("load with many hostile heads did not return within the wall-clock cap")
+			} else {
+				w := wit()
+				w["goroutine_dump"] = clipStr(dump, 8000)
+				run.Violate("C12/load-hung", d, w, "loading a head list with %d hostile blocks never returned although the store is quiescent", nbad)
+			}
+			return
+		}
+		if err != nil || loaded == nil {
+			run.Violate("C12/load-failed", d, wit(), "loading a head list with %d hostile blocks failed instead of skipping them: %v", nbad, err)
+			return
+		}
+		if got := hx.Observe(loaded); !model.SameKeys(got.Set, want) {
+			run.Violate("C12/rest-not-loaded", d, wit(), "head list with %d hostile blocks (concurrency %d): loaded %d entries, the real history has %d", nbad, conc, len(got.Set), len(want))
+			return
+		}
+	}
 }
